@@ -214,6 +214,15 @@ func CheckC06(run *Run) {
 						scen = append(scen, map[string]any{"id": fmt.Sprint(len(scen)), "kind": "call", "pkg": r.ID, "service": svc.Name, "method": md.Name,
 							"req": WireHex(rm), "script": map[string]any{"resp": WireHex(resp)}, "opts": map[string]any{"ContentType": "application/json"}})
 						refs = append(refs, rpcRef{r, g, svc, md, op, docID, "success", i, docT, rm, resp})
+						if k == 1 {
+							// the same exchange under a request Content-Type the server does not recognise (it treats it as JSON):
+							// the bodies are the same documents and must validate all the same
+							scen = append(scen, map[string]any{"id": fmt.Sprint(len(scen)), "kind": "call", "pkg": r.ID, "service": svc.Name, "method": md.Name,
+								"req": WireHex(rm), "script": map[string]any{"resp": WireHex(resp)}, "opts": map[string]any{"ContentType": "text/plain"}})
+							// (only the RESPONSE is looked at: what the Go client writes under a content type it does not know is
+							// not a JSON request body in the property's sense)
+							refs = append(refs, rpcRef{r, g, svc, md, op, docID, "success-other-content-type", i, docT, rm, resp})
+						}
 					}
 					// error responses: handler error (default), malformed body (400)
 					scen = append(scen, map[string]any{"id": fmt.Sprint(len(scen)), "kind": "call", "pkg": r.ID, "service": svc.Name, "method": md.Name,
@@ -344,7 +353,7 @@ func CheckC06(run *Run) {
 			if sch := respSchema(ref.op, code); sch != nil {
 				term := ""
 				switch {
-				case ref.kind == "success" && o.Status == 200:
+				case (ref.kind == "success" || ref.kind == "success-other-content-type") && o.Status == 200:
 					term = bodyTerm(ref.md.Out, ref.resp)
 				case ref.kind == "handler-error" && o.Status == 500:
 					term = fmt.Sprintf("(%s, WError %s, [], [])", ref.docT, CoqStr("boom"))
